@@ -337,6 +337,7 @@ int ABT_eventual_set(ABT_eventual eventual, void *value, int nbytes)
         if (p_eventual->value)
             memcpy(p_eventual->value, value, arg_nbytes);
         p_eventual->ready = ABT_TRUE;
+        ABTI_VERIF_EV(ABTI_VEV_DATA, p_eventual, 1, 1);
         /* Wake up all waiting ULTs */
         ABTI_waitlist_broadcast(p_local, &p_eventual->waitlist);
         ABTD_spinlock_release(&p_eventual->lock);
@@ -384,6 +385,7 @@ int ABT_eventual_reset(ABT_eventual eventual)
     ABTD_spinlock_acquire(&p_eventual->lock);
     ABTI_UB_ASSERT(ABTI_waitlist_is_empty(&p_eventual->waitlist));
     p_eventual->ready = ABT_FALSE;
+    ABTI_VERIF_EV(ABTI_VEV_DATA, p_eventual, 1, 0);
     ABTD_spinlock_release(&p_eventual->lock);
     return ABT_SUCCESS;
 }
